@@ -1,5 +1,4 @@
 package main
 
 func genWritePaths(repo string) string { return "namespace Stfs.Gen\nend Stfs.Gen\n" }
-func genLocks(repo string) string      { return "namespace Stfs.Gen\nend Stfs.Gen\n" }
 func genFacts(repo string) string      { return "{}\n" }
